@@ -71,9 +71,11 @@ Section Hist.
     exists F' d ev,
       s_tr ss' = trace_evs (s_tr ss) ev /\
       rep H (resolve_of H PathScheme S) (dirty_at ss') (delp_of (s_tr ss')) true [] (s_root ss') F' /\
-      forall fu', (length (keybytes_to_hex key) < fu')%nat ->
+      (forall fu', (length (keybytes_to_hex key) < fu')%nat ->
         exists ev', delete (resolve_of H PathScheme S) fu' F [] (keybytes_to_hex key) = TOk (d, F', ev') /\
-                    nores ev' = nores ev.
+                    nores ev' = nores ev) /\
+      delete (resolve_of H PathScheme S) (ops_fuel (keybytes_to_hex key)) (s_root ss) []
+             (keybytes_to_hex key) = TOk (d, s_root ss', ev).
   Proof.
     intros [GO Rp] BK E. unfold sess_update in E.
     set (k := keybytes_to_hex key) in *.
@@ -98,7 +100,7 @@ Section Hist.
     destruct (delete_rep H H_len (resolve_of H PathScheme S) (dirty_at ss) (dirty_at ss')
                 (delp_of (s_tr ss)) (delp_of (s_tr ss')) DM
                 _ _ _ _ _ _ _ _ _ DE Rp Wp DP DK) as (F' & X1 & _ & _ & _ & X5).
-    exists F', d, ev. split; [reflexivity|]. split; [exact X1|exact X5].
+    exists F', d, ev. split; [reflexivity|]. split; [exact X1|]. split; [exact X5|first [exact DE|reflexivity]].
   Qed.
 
   (* the guard on operations: byte keys; keys and values shorter than 2^32 bytes *)
@@ -124,7 +126,7 @@ Section Hist.
     { intros F' [[X _]|[_ [->|Cn]]] Sz'; [subst k; rewrite X in Vk; inversion Vk|left; reflexivity|].
       right. split; [exact Cn|apply can_sizes_pwf; assumption]. }
     destruct v as [|x v].
-    - destruct (sess_delete_rep S ss F key ss' SI BK E) as (F' & d & evm & _ & Rp' & GR). fold k in GR.
+    - destruct (sess_delete_rep S ss F key ss' SI BK E) as (F' & d & evm & _ & Rp' & GR & _). fold k in GR.
       destruct (delete_spec (resolve_of H PathScheme S) (ops_fuel k) F [] k (ops_fuel_ok k) Wp)
         as (d0 & n0 & ev0 & DE0 & PO).
       destruct (GR (ops_fuel k) (ops_fuel_ok k)) as (ev' & DE' & _). rewrite DE0 in DE'. inversion DE'; subst d0 n0 ev0.
@@ -134,7 +136,7 @@ Section Hist.
         rewrite (L2 k' NE) in L'. apply Sz. exact L'. }
       exists F'. split; [split; [apply FIN; [apply CP; exact Cp|exact Sz']|exact Rp']|].
       split; [exact Sz'|]. split; [exact L1|exact L2].
-    - destruct (sess_insert_rep H H_len S ss F key x v ss' SI BK E) as (F' & d & evm & _ & Rp' & GR). fold k in GR.
+    - destruct (sess_insert_rep H H_len S ss F key x v ss' SI BK E) as (F' & d & evm & _ & Rp' & GR & _). fold k in GR.
       destruct (insert_spec (resolve_of H PathScheme S) (ops_fuel k) F [] k (x :: v) (ops_fuel_ok k) Wp)
         as (d0 & n0 & ev0 & DE0 & PO).
       destruct (GR (ops_fuel k) (ops_fuel_ok k)) as (ev' & DE' & _). rewrite DE0 in DE'. inversion DE'; subst d0 n0 ev0.
